@@ -441,9 +441,13 @@ func (fr *Frame) anchorAsserts(kind, what string, pos token.Pos, bind map[string
 		if f[0] != kind {
 			continue
 		}
-		if len(f) == 2 && !strings.Contains(what, f[1]) && !fr.anchorIsLocalChan(kind, f[1], bind) {
+		if len(f) == 2 && !anchorMatch(what, f[1]) && !fr.anchorIsLocalChan(kind, f[1], bind) {
 			continue
 		}
+		if fr.vc.anchorHit == nil {
+			fr.vc.anchorHit = map[string]bool{}
+		}
+		fr.vc.anchorHit[fc.Key+"|assert|"+a] = true
 		for i, c := range fc.Asserts[a] {
 			env := fr.specEnvHere()
 			for k, v := range bind {
@@ -618,6 +622,14 @@ func (fr *Frame) ghostVarHeap(g *GhostVar, env *SpecEnv) (string, Sort, types.Ty
 	return "$ghost|" + fr.key + "|" + g.Name, s, t, nil
 }
 
+// coerceGhost: the untyped nil literal takes the zero value of the ghost variable's type.
+func (fr *Frame) coerceGhost(v *Val, s Sort, t types.Type) *Val {
+	if v.S != s && v.T == "0" && t != nil && s != SInt {
+		return &Val{T: fr.zero(t), S: s, Typ: t}
+	}
+	return v
+}
+
 // initGhostVars gives the ghost variables of the function their initial values (at entry).
 func (fr *Frame) initGhostVars() {
 	fc := fr.contr
@@ -629,7 +641,7 @@ func (fr *Frame) initGhostVars() {
 	}
 	for _, g := range fc.GhostVars {
 		env := fr.specEnvHere()
-		hn, s, _, err := fr.ghostVarHeap(g, env)
+		hn, s, gt, err := fr.ghostVarHeap(g, env)
 		if err != nil {
 			fr.vc.specError(fr, g.Init, err)
 			continue
@@ -639,11 +651,25 @@ func (fr *Frame) initGhostVars() {
 			fr.vc.specError(fr, g.Init, err)
 			continue
 		}
+		v = fr.coerceGhost(v, s, gt)
+		if v.S != s {
+			fr.vc.specError(fr, g.Init, fmt.Errorf("ghost variable %s has sort %s, initial value has sort %s", g.Name, s, v.S))
+			continue
+		}
 		fr.vc.setHeap(fr.st, hn, s, v.T)
 	}
 }
 
 // ghostAfter applies the `after <anchor>: v = e` updates of the function's contract.
+// anchorMatch: an anchor pattern is a substring of the program point's name; a trailing `$`
+// requires it to be a suffix (`call connStatus).CompareAndSwap$` does not match CompareAndSwapNot).
+func anchorMatch(what, pat string) bool {
+	if strings.HasSuffix(pat, "$") {
+		return strings.HasSuffix(what, strings.TrimSuffix(pat, "$"))
+	}
+	return strings.Contains(what, pat)
+}
+
 // anchorIsLocalChan: a send/recv anchor may name the channel by the local variable that holds it.
 func (fr *Frame) anchorIsLocalChan(kind, name string, bind map[string]*Val) bool {
 	if kind != "send" && kind != "recv" {
@@ -679,9 +705,13 @@ func (fr *Frame) ghostAfter(kind, what string, bind map[string]*Val) {
 		if f[0] != kind {
 			continue
 		}
-		if len(f) == 2 && !strings.Contains(what, f[1]) && !fr.anchorIsLocalChan(kind, f[1], bind) {
+		if len(f) == 2 && !anchorMatch(what, f[1]) && !fr.anchorIsLocalChan(kind, f[1], bind) {
 			continue
 		}
+		if fr.vc.anchorHit == nil {
+			fr.vc.anchorHit = map[string]bool{}
+		}
+		fr.vc.anchorHit[fc.Key+"|after|"+u.Anchor] = true
 		g := fr.ghostVarDecl(u.Var)
 		if g == nil {
 			fr.vc.specError(fr, u.Expr, fmt.Errorf("unknown ghost variable %s", u.Var))
@@ -691,7 +721,7 @@ func (fr *Frame) ghostAfter(kind, what string, bind map[string]*Val) {
 		for k, v := range bind {
 			env = env.bind(k, v)
 		}
-		hn, s, _, err := fr.ghostVarHeap(g, env)
+		hn, s, gt, err := fr.ghostVarHeap(g, env)
 		if err != nil {
 			fr.vc.specError(fr, u.Expr, err)
 			continue
@@ -699,6 +729,11 @@ func (fr *Frame) ghostAfter(kind, what string, bind map[string]*Val) {
 		v, err := env.eval(u.Expr.Expr)
 		if err != nil {
 			fr.vc.specError(fr, u.Expr, err)
+			continue
+		}
+		v = fr.coerceGhost(v, s, gt)
+		if v.S != s {
+			fr.vc.specError(fr, u.Expr, fmt.Errorf("ghost variable %s has sort %s, assigned value has sort %s", u.Var, s, v.S))
 			continue
 		}
 		old := fr.vc.heap(fr.st, hn, s)
